@@ -53,31 +53,49 @@ Record pstate := mk_pstate {
   acct : list (N * diag);            (* accounts in a state in which the directory refuses EVERY
                                         bind (disabled, locked out, expired ...), with the
                                         diagnostic it gives for them *)
-  style : diag                       (* the diagnostic of ordinary refusals (wrong password,
+  style : diag;                      (* the diagnostic of ordinary refusals (wrong password,
                                         unknown user) of this directory product *)
+  extra_patterns : nat;              (* bind patterns configured BEYOND the first (config.go builds
+                                        exactly one: 0 here) *)
+  homes : list (N * nat)             (* the pattern (index) under which a user's entry lives;
+                                        absent = the first pattern *)
 }.
 
-Definition pinit (nservers : nat) : pstate :=
-  mk_pstate init [] (repeat SUp nservers) [] [] DPlain.
+Definition pinit2 (nservers extra : nat) : pstate :=
+  mk_pstate init [] (repeat SUp nservers) [] [] DPlain extra [].
+Definition pinit (nservers : nat) : pstate := pinit2 nservers 0.
+
+Definition home (s : pstate) (u : N) : nat :=
+  match aget N.eqb u (homes s) with Some p => p | None => O end.
 
 (* the directory's own verdict on (u, pw): u's entry holds pw, pw is not the empty password,
    and the account is in order *)
-Definition dir_accepts (s : pstate) (u pw : N) : bool :=
+Definition entry_accepts (s : pstate) (u pw : N) : bool :=
   match aget N.eqb u (dir s) with
   | Some p => N.eqb p pw && negb (N.eqb pw 0)     (* password 0 = the empty one *)
   | None => false
   end &&
   match aget N.eqb u (acct s) with Some _ => false | None => true end.
+(* ... as keymaster can learn it: under the FIRST bind pattern (see first_answer_gen: a replica
+   that answers at all answers the first pattern's bind, and that answer is final) *)
+Definition dir_accepts (s : pstate) (u pw : N) : bool :=
+  entry_accepts s u pw && Nat.eqb (home s u) 0.
 
 Definition refusal_diag (s : pstate) (u : N) : diag :=
   match aget N.eqb u (acct s) with Some d => d | None => style s end.
 
-Definition bind (s : pstate) (sv : status) (u pw : N) : reply :=
+(* one bind attempt: server sv, the bind DN built from pattern number p.  Under the pattern the
+   user's entry lives under, a refusal carries the account's / the style's diagnostic; under any
+   other pattern there is no such entry (the style's diagnostic) *)
+Definition bind_at (s : pstate) (sv : status) (p : nat) (u pw : N) : reply :=
   match sv with
-  | SUp => if dir_accepts s u pw then RBound else RRefused invalid_credentials (refusal_diag s u)
+  | SUp => if entry_accepts s u pw && Nat.eqb (home s u) p then RBound
+           else RRefused invalid_credentials (if Nat.eqb (home s u) p then refusal_diag s u else style s)
   | SErroring => RRefused other_code (style s)
   | SDown => RSilent
   end.
+(* the attempt under the first pattern *)
+Definition bind (s : pstate) (sv : status) (u pw : N) : reply := bind_at s sv 0 u pw.
 
 (* lib/authutil CheckLDAPUserPassword: bound -> (true, nil); an error whose text contains
    "Invalid Credentials", i.e. (go-ldap prints `LDAP Result Code 49 "Invalid Credentials":
@@ -102,12 +120,21 @@ Definition verdict (interp : N -> diag -> option bool) (r : reply) : option bool
   | RSilent => None
   end.
 
-(* the double loop of passwordAuthenticate (one bind pattern per server, as config.go builds
-   it): the first attempt that answers decides *)
+(* the double loop of passwordAuthenticate: for every URL, for every bind pattern; the first
+   attempt that answers decides *)
+Fixpoint try_patterns (interp : N -> diag -> option bool) (s : pstate) (sv : status) (ps : list nat) (u pw : N) : option bool :=
+  match ps with
+  | [] => None
+  | p :: r => match verdict interp (bind_at s sv p u pw) with
+              | Some v => Some v
+              | None => try_patterns interp s sv r u pw
+              end
+  end.
+Definition patterns (s : pstate) : list nat := seq 0 (S (extra_patterns s)).
 Fixpoint first_answer_gen (interp : N -> diag -> option bool) (s : pstate) (svs : list status) (u pw : N) : option bool :=
   match svs with
   | [] => None
-  | sv :: r => match verdict interp (bind s sv u pw) with
+  | sv :: r => match try_patterns interp s sv (patterns s) u pw with
                | Some v => Some v
                | None => first_answer_gen interp s r u pw
                end
@@ -134,7 +161,7 @@ Definition get_pw (claim_checked : bool) (s : pstate) (u : N) : got :=
       end
   end.
 
-Definition with_st (s : pstate) (x : state) : pstate := mk_pstate x (dir s) (servers s) (jwss s) (acct s) (style s).
+Definition with_st (s : pstate) (x : state) : pstate := mk_pstate x (dir s) (servers s) (jwss s) (acct s) (style s) (extra_patterns s) (homes s).
 
 (* UpsertSigned(u, 1, now+96h, hash): a new signed record, stored in the primary (and, since
    the repair, repeated on the local cache); nothing happens when the primary cannot be written *)
@@ -144,7 +171,7 @@ Definition refresh (stp : state -> op -> state * out) (s : pstate) (u pw : N) : 
     let n := now (st s) in
     mk_pstate (fst (stp (st s) (Upsert u pw_type id (n + cache_secs))))
               (dir s) (servers s)
-              (jwss s ++ [mk_jws true u pw n (n + cache_secs)]) (acct s) (style s)
+              (jwss s ++ [mk_jws true u pw n (n + cache_secs)]) (acct s) (style s) (extra_patterns s) (homes s)
   else s.
 
 (* DeleteSigned(u, 1) *)
@@ -193,7 +220,8 @@ Inductive pop :=
 | PSync
 | Tamper (w : which) (slot : N) (r : forged_or) (col_exp : Z)
 | SetAcct (u : N) (d : option diag)     (* the account is put out of order (refused with diagnostic d) / back in order *)
-| SetStyle (d : diag).
+| SetStyle (d : diag)
+| SetHome (u : N) (p : nat).            (* the user's entry lives under bind pattern number p *)
 
 Fixpoint set_nth {A} (i : nat) (v : A) (l : list A) : list A :=
   match l, i with
@@ -206,11 +234,14 @@ Definition pstep_gen (claim_checked : bool) (interp : N -> diag -> option bool) 
            (s : pstate) (o : pop) : pstate * option bool :=
   match o with
   | Login u pw => let '(s', v) := login_gen claim_checked interp stp s u pw in (s', Some v)
-  | SetServer i sv => (mk_pstate (st s) (dir s) (set_nth i sv (servers s)) (jwss s) (acct s) (style s), None)
-  | ChangePw u pw => (mk_pstate (st s) (aset N.eqb u pw (dir s)) (servers s) (jwss s) (acct s) (style s), None)
+  | SetServer i sv => (mk_pstate (st s) (dir s) (set_nth i sv (servers s)) (jwss s) (acct s) (style s) (extra_patterns s) (homes s), None)
+  | ChangePw u pw => (mk_pstate (st s) (aset N.eqb u pw (dir s)) (servers s) (jwss s) (acct s) (style s) (extra_patterns s) (homes s), None)
   | SetAcct u d => (mk_pstate (st s) (dir s) (servers s) (jwss s)
-                              (match d with Some x => aset N.eqb u x (acct s) | None => adel N.eqb u (acct s) end) (style s), None)
-  | SetStyle d => (mk_pstate (st s) (dir s) (servers s) (jwss s) (acct s) d, None)
+                              (match d with Some x => aset N.eqb u x (acct s) | None => adel N.eqb u (acct s) end) (style s)
+                              (extra_patterns s) (homes s), None)
+  | SetStyle d => (mk_pstate (st s) (dir s) (servers s) (jwss s) (acct s) d (extra_patterns s) (homes s), None)
+  | SetHome u p => (mk_pstate (st s) (dir s) (servers s) (jwss s) (acct s) (style s) (extra_patterns s)
+                              (aset N.eqb u p (homes s)), None)
   | PTick dt => (with_st s (fst (stp (st s) (Tick (Z.max 0 dt)))), None)
   | PMode m => (with_st s (fst (stp (st s) (SetMode m))), None)
   | PSync => (with_st s (fst (stp (st s) (Sync None))), None)
@@ -219,7 +250,7 @@ Definition pstep_gen (claim_checked : bool) (interp : N -> diag -> option bool) 
       | RExisting id => (with_st s (put w (st s) slot (Some (mk_srow id col 0))), None)
       | RForged sub pw nbf ex =>
           (mk_pstate (put w (st s) slot (Some (mk_srow (N.of_nat (length (jwss s))) col 0)))
-                     (dir s) (servers s) (jwss s ++ [mk_jws false sub pw nbf ex]) (acct s) (style s), None)
+                     (dir s) (servers s) (jwss s ++ [mk_jws false sub pw nbf ex]) (acct s) (style s) (extra_patterns s) (homes s), None)
       | RDelete => (with_st s (put w (st s) slot None), None)
       end
   end.
@@ -256,11 +287,11 @@ Definition obool_eqb (a b : option bool) : bool :=
   match a, b with Some x, Some y => Bool.eqb x y | None, None => true | _, _ => false end.
 
 (* ops, the verdict of each login (None for other ops), snapshots of both stores *)
-Definition pw_case := (nat * list pop * list (option bool) * list (nat * db * db))%type.
+Definition pw_case := ((nat * nat) * list pop * list (option bool) * list (nat * db * db))%type.
 
 Definition pw_case_ok (c : pw_case) : bool :=
-  let '(n, ops, outs, snaps) := c in
-  let tr := prun_outs (pinit n) ops in
+  let '((n, extra), ops, outs, snaps) := c in
+  let tr := prun_outs (pinit2 n extra) ops in
   list_eqb obool_eqb (map snd tr) outs &&
   forallb (fun e => let '(i, p, c) := e in
                     match nth_error tr i with
